@@ -115,6 +115,8 @@ class TracedSel(SelectionState):
         object.__setattr__(self, name, value)
         o = self.__dict__.get("_owner")
         if o is not None and name in ("original_cursor_position", "type") and o.selection_state is self:
+            if name == "original_cursor_position":
+                object.__setattr__(o, "_tr_anchor", o._tr_anchor + 1)   # (skeleton: HData.anchorWritten)
             o._log_raw("selw", o._sel_tuple())
 
 
@@ -128,6 +130,8 @@ class TracedBuffer(Buffer):
     _tr_log = None  # list of (op tuple, outcome, state tuple)
     _tr_on = False
     _tr_id = 0
+    _tr_tc = 0      # number of `_text_changed()` / `reset()` calls (each clears the selection)
+    _tr_anchor = 0  # number of direct writes to `selection_state.original_cursor_position`
 
     # -- helpers
     def _sel_tuple(self):
@@ -199,7 +203,12 @@ class TracedBuffer(Buffer):
         return self._prim("doc", (value.text, value.cursor_position, bool(bypass_readonly)),
                           lambda: Buffer.set_document(self, value, bypass_readonly))
 
+    def _text_changed(self):
+        object.__setattr__(self, "_tr_tc", self._tr_tc + 1)
+        return Buffer._text_changed(self)
+
     def reset(self, document=None, append_to_history=False):
+        object.__setattr__(self, "_tr_tc", self._tr_tc + 1)
         d = document or Document()
         return self._prim("reset", (d.text, d.cursor_position),
                           lambda: Buffer.reset(self, document, append_to_history))
@@ -357,7 +366,18 @@ def editor(**kw):
                         await asyncio.sleep(0)
                 loop.run_until_complete(go())
 
+            def feed_key(k):
+                """process one KeyPress; exceptions of the key processor propagate"""
+                async def go():
+                    kp = ed.app.key_processor
+                    kp.feed(k)
+                    kp.process_keys()
+                    for _ in range(4):
+                        await asyncio.sleep(0)
+                loop.run_until_complete(go())
+
             ed.feed = feed  # type: ignore
+            ed.feed_key = feed_key  # type: ignore
             yield ed
     finally:
         try:
